@@ -17,7 +17,7 @@ RULE = ('`python -m pyx12.scripts.x12norm` is run as a subprocess (one process p
         'Every sixth step the last 2-3 inputs are also normalised in ONE invocation (separate arguments in place, to stdout, or through a glob pattern in place); each result must equal the single-file run. non-trivial = distinct (document, option set) pairs; for the repair part those with >=1 perturbed counter.')
 ASSUMPTIONS = ['input files are ASCII (the tool opens files as ASCII by design); --output with several input files (each overwrites the last) is not judged',
                'a segment without any element is not generated (format() writes "SE*~" for "SE~")', 'the exit status and log lines on stderr are not judged']
-REQUIRED_COUNTERS = ['mode:output:over-existing-file', 'inputs:longer-than-one-read-buffer:inplace', 'inputs:longer-than-one-read-buffer:output', 'inputs:longer-than-one-read-buffer:stdout', 'invocations', 'mode:stdout', 'mode:output', 'mode:inplace', 'opt:eol', 'opt:fixcounting', 'idempotence-checked', 'repairs-checked', 'perturbed-counters', 'inputs:line-break-character-as-terminator', 'inputs:terminator-at-read-boundary', 'inputs:isa-field-ending-in-component-separator', 'inputs:trailer-whose-true-count-is-zero', 'multi-file-invocations', 'multi-file:later-output-shorter', 'multi-file:inplace', 'multi-file:stdout', 'multi-file:inplace-glob']
+REQUIRED_COUNTERS = ['perturbed:hl-numbers-and-parents-shifted-together', 'mode:output:over-existing-file', 'inputs:longer-than-one-read-buffer:inplace', 'inputs:longer-than-one-read-buffer:output', 'inputs:longer-than-one-read-buffer:stdout', 'invocations', 'mode:stdout', 'mode:output', 'mode:inplace', 'opt:eol', 'opt:fixcounting', 'idempotence-checked', 'repairs-checked', 'perturbed-counters', 'inputs:line-break-character-as-terminator', 'inputs:terminator-at-read-boundary', 'inputs:isa-field-ending-in-component-separator', 'inputs:trailer-whose-true-count-is-zero', 'multi-file-invocations', 'multi-file:later-output-shorter', 'multi-file:inplace', 'multi-file:stdout', 'multi-file:inplace-glob']
 MIN_CASES = {'quick': 120, 'thorough': 3000}
 WATCHDOG_S = {'quick': 1200, 'thorough': 7200}
 
@@ -52,6 +52,22 @@ def run_norm(ctx, path, eol, fix, mode, outpath=None):
 def perturb(rng, doc):
     d = faults.clone(doc)
     n = 0
+    if rng.random() < 0.35:
+        # a subtree was cut out of the hierarchy: from some HL on, the numbers AND the parent references that point at renumbered levels are
+        # shifted together - wrong number and (for the reader's own count) unknown parent on the same segment
+        hls = [r for r in d.recs if r.node.id == 'HL']
+        if len(hls) >= 3:
+            k0 = rng.randrange(1, len(hls) - 1)
+            first_shifted = int(hls[k0].vals[0]) if hls[k0].vals[0].isdigit() else None
+            if first_shifted is not None:
+                for r in hls[k0:]:
+                    if r.vals[0].isdigit() and int(r.vals[0]) >= first_shifted:
+                        r.vals[0] = str(int(r.vals[0]) + 2)
+                        n += 1
+                    if len(r.vals) > 1 and isinstance(r.vals[1], str) and r.vals[1].isdigit() and int(r.vals[1]) >= first_shifted:
+                        r.vals[1] = str(int(r.vals[1]) + 2)
+                d.meta['hl_shifted'] = True
+                return d, n
     for r in d.recs:
         if r.node.id in ('SE', 'GE', 'IEA') and rng.random() < 0.5:
             r.vals[0] = rng.choice([str(int(r.vals[0]) + 1), '0', 'X', '', '999'])
@@ -254,6 +270,8 @@ def run(ctx):
                 ctx.count('inputs:longer-than-one-read-buffer:' + mode)
             if fix and rng.random() < 0.8:
                 doc, nper = perturb(rng, doc)
+                if doc.meta.get('hl_shifted'):
+                    ctx.count('perturbed:hl-numbers-and-parents-shifted-together')
             brk = rng.choice(['', '\n', '\r\n', '\n\n']) if terms[0] not in '\r\n' else ''
             if terms[0] in '\r\n':
                 ctx.count('inputs:line-break-character-as-terminator')
